@@ -10,8 +10,22 @@ NA = {
 TECH = {
     'C01': 'path-complete dominance + provenance analysis over rustc MIR (custom rustc_private driver)',
     'C02': 'must-pass-through / guard-dominance / interprocedural argument-position tracing over rustc MIR',
-    'C13': 'static path enumeration with symbolic size expressions over rustc MIR (path-sum, guard exactness)',
+    'C03': 'call-order (protocol sequence) extraction per feasible MIR path, def-use provenance of identifiers, layout tables vs specification',
+    'C04': 'message-DSL shape model recovered from MIR; writer/reader length-relation agreement; fixed-size field table',
+    'C05': 'hostile-panic analysis: panic-site census from MIR + interprocedural interval abstract interpretation + shape-flow analysis of the message DSL',
+    'C06': 'hostile-panic analysis: panic-site census from MIR + interprocedural interval abstract interpretation + shape-flow analysis of the message DSL',
+    'C07': 'hostile-panic analysis: panic-site census from MIR + interprocedural interval abstract interpretation + ASN.1 / DSL shape-flow analysis',
+    'C08': 'panic-site census, typestate argument for the row cursor, result-buffer provenance, interval abstract interpretation, loop-guard cycle rule over rustc MIR',
+    'C10': 'loop / call-count path analysis, field-mapping provenance, DSL option-target rules, bit-provenance of the flag test over rustc MIR',
+    'C11': 'path call-count along the write chain, constant folding of flag words per path, mapping table vs specification',
+    'C12': 'automaton extraction from MIR paths compared with a reference automaton; effect placement; who-may-store rule',
+    'C13': 'static path enumeration with symbolic size expressions over rustc MIR (path-sum, guard exactness), bit-provenance abstract domain',
     'C14': 'result-consumption and Result-propagation dataflow, frame-shape and guard-constant rules over rustc MIR',
+    'C15': 'sibling-function expression agreement, offset partial-sum rule on the DSL shape model, argument-order provenance',
+    'C16': 'dominance + provenance of the tamper check, call-order agreement of seal/unseal, key-role wiring table, once-per-message increment rule',
+    'C17': 'field-sensitive forward information-flow (taint) over MIR, per-path flag constant folding, control-dependence of the empty-credential choice',
+    'C18': 'sibling agreement rules between write/read/length implementations, enum<->From discriminant agreement, bit-provenance of PER length coding',
+    'C20': 'CFG loop-exit rule on the Err edge, guard liveness (drop placement), anti-pattern detector, call-count rule over rustc MIR',
 }
 checks, na = [], []
 for p in props:
